@@ -80,8 +80,22 @@ func tag(exec, h uint64) uint64 {
 	if low == 0 {
 		low = 1
 	}
+	if low>>8 == poisonPat {
+		low ^= 1 << 40 // ordinary tokens never look like poison
+	}
 	return exec<<44 | low
 }
+
+// Poison tokens mark values that a Bare program stores into its argument
+// variables once the first user function has been entered.
+const poisonPat = 0xBAD0BAD0B // 36 bits; the low 8 bits carry the site
+
+func PoisonTok(exec uint64, site int) uint64 { return exec<<44 | poisonPat<<8 | uint64(site&0xFF) }
+
+func IsPoison(tok uint64) bool { return (tok&(1<<44-1))>>8 == poisonPat }
+
+// PoisonFn is added to the id of a function to name its poisoned twin.
+const PoisonFn = 100000
 
 func ParamTok(exec uint64, i int) uint64    { return tag(exec, Mix(uint64(i)+0x5151)) }
 func SentinelTok(exec uint64, i int) uint64 { return tag(exec, Mix(uint64(i)+0x7E57)) }
@@ -141,7 +155,11 @@ func genDelay(r *Rand) (int, int) {
 //	panic    as fault, panics only
 //	goexit   a function kills its goroutine
 //	cancel   the context is cancelled before the call / inside a function / by a helper
-func GenScenario(p *Program, r *Rand, exec uint64, tagName string) *Scenario {
+//	one      exactly one function fails, chosen systematically by the scenario
+//	         number k: function k mod n, with an error (when it can return one)
+//	         for even k/n and a panic otherwise; for an element function the
+//	         first, last or a middle element
+func GenScenario(p *Program, r *Rand, exec uint64, tagName string, k int) *Scenario {
 	s := &Scenario{Tag: tagName, Out: map[int]Outcome{}, ElemOut: map[int]map[uint64]Outcome{}, FnInfo: p.FnInfos()}
 	s.Conc = r.PickInt(0, 1, 1, 2, 2, 3, 4, 8, 64)
 	if p.Flow != nil {
@@ -300,6 +318,34 @@ func GenScenario(p *Program, r *Rand, exec uint64, tagName string) *Scenario {
 				keep(f.ID, predOutcome(false))
 			}
 		}
+	case "one":
+		var cand []*Fn
+		for _, f := range fns {
+			if f.Role != "pred" {
+				cand = append(cand, f)
+			}
+		}
+		if len(cand) == 0 {
+			break
+		}
+		f := cand[k%len(cand)]
+		round := k / len(cand)
+		o := Outcome{Kind: OPanic, PanicKind: k % 6}
+		if f.Err && round%2 == 0 {
+			o = Outcome{Kind: OErr}
+		}
+		if f.Role == "slice" || f.Role == "map" {
+			c := p.collOf(f.ID)
+			toks := s.Colls[c.Slot]
+			if len(toks) == 0 {
+				toks = []uint64{ElemTok(exec, c.Slot, 0), ElemTok(exec, c.Slot, 1), ElemTok(exec, c.Slot, 2)}
+				s.Colls[c.Slot] = toks
+			}
+			i := []int{0, len(toks) - 1, len(toks) / 2}[(round/2)%3]
+			s.ElemOut[f.ID] = map[uint64]Outcome{ElemKey(c, toks, i): o}
+			break
+		}
+		keep(f.ID, o)
 	case "fault", "panic":
 		for _, f := range fns {
 			if f.Role == "pred" {
